@@ -967,4 +967,54 @@ theorem query_agree {W : Nat} (hW : 0 < W) (hW32 : W ≤ 32) (d : List Nat) (hd 
         rw [if_pos (by simpa using hcb)]
         rfl
 
+/-! ## the whole function on a valid text -/
+
+theorem valAt_of_parse {d : List Nat} {v : JVal} (h : parse d = .ok v) : ValAt d (2 * d.length + 2) 0 v := by
+  unfold parse at h
+  simp only at h
+  cases hv : parseValue d (2 * d.length + 2) (skipWs d d.length 0) with
+  | error x => rw [hv] at h; cases h
+  | ok x =>
+    obtain ⟨v', next⟩ := x
+    rw [hv] at h
+    simp only at h
+    split at h
+    · rename_i hend
+      injection h with h; subst h
+      obtain ⟨c, hc, hcns, _⟩ := value_start hv
+      refine ⟨_, _, next, Nat.le_refl _, skipWs_first hc hcns, hv, ?_⟩
+      have hend' : skipWs d d.length next = d.length := by simpa using hend
+      refine ⟨d.length, ?_, Nat.le_refl _, ?_, Or.inl rfl⟩
+      · rw [← hend']; exact (skipWs_spec d d.length next).1
+      · have := skipWs_range d d.length next; rwa [hend'] at this
+    · cases h
+
+theorem getOnDemand_agree {W : Nat} (hW : 0 < W) (hW32 : W ≤ 32) (d : List Nat) (hd : ∀ x ∈ d, x < 256)
+    (hlen : d.length < 2 ^ 64) (junk : Nat → Nat → Nat) (hj : ∀ s i, junk s i < 256) (path : List Step)
+    (v : JVal) (hv : parse d = .ok v) :
+    (∀ u, «at» v path = some u → ∃ start stop ue, getOnDemand W d junk path = .ok (.ok start stop stop) ∧
+        parseAt d start = .ok (u, ue) ∧ start < ue ∧ ue ≤ stop ∧ stop ≤ d.length ∧ WsRange d ue stop ∧
+        ((∀ n, u ≠ .num n) → stop = ue)) ∧
+    («at» v path = none → ∃ code off, getOnDemand W d junk path = .ok (.err code off 0) ∧ ErrCode code) := by
+  obtain ⟨q1, q2⟩ := query_agree hW hW32 d hd junk hj path _ v Cache.init 0 (valAt_of_parse hv)
+    (CInv.init d 0) (CValid.init d)
+  refine ⟨fun u hu => ?_, fun hn => ?_⟩
+  · obtain ⟨s, stop, f', ue, eq, hf, hp, h1, h2, h3, h4⟩ := q1 u hu
+    obtain ⟨b1, _, _⟩ := (value_neut d f').1 _ _ _ hp
+    refine ⟨s, stop, ue, ?_, parseValue_mono hp hf, b1, h1, h2, h3, h4⟩
+    unfold getOnDemand
+    simp only [bind, Except.bind, pure, Except.pure]
+    rw [eq]
+    simp only
+    have : s + (stop + 2 ^ 64 - s) % 2 ^ 64 = stop := by
+      have : stop + 2 ^ 64 - s = (stop - s) + 2 ^ 64 := by omega
+      rw [this, Nat.add_mod_right, Nat.mod_eq_of_lt (by omega)]
+      omega
+    rw [this]
+  · obtain ⟨code, pos', eq, hc⟩ := q2 hn
+    refine ⟨code, pos', ?_, hc⟩
+    unfold getOnDemand
+    simp only [bind, Except.bind, pure, Except.pure]
+    rw [eq]
+
 end Sonic.Proofs.OnDemand
